@@ -62,14 +62,20 @@ def vget(st, l):
     return None
 
 
-_UNTRACKED = set()     # locals of the function under analysis whose address is taken mutably (set per function by Proto.analyse)
+import threading
+_TLS = threading.local()     # per thread: locals of the function under analysis whose address is taken mutably (set by Proto.analyse)
+
+
+def _untracked():
+    return getattr(_TLS, 'untracked', ())
+
 
 
 PAYLOAD = 1000000      # V key of "the single field of the enum value held in local l" is l + PAYLOAD (Ok(x) / Some(x) / Err(x) wrappers of decisions)
 
 
 def vset(st, l, val):
-    if l in _UNTRACKED and val is not None and val[0] not in ('qs',):
+    if l in _untracked() and val is not None and val[0] not in ('qs',):
         val = None
     items = [(k, v) for k, v in st.V if k != l and (l >= PAYLOAD or k != l + PAYLOAD)]
     if val is not None:
@@ -433,8 +439,7 @@ class Proto:
 
     # ------------------------------------------------------------------------------------
     def analyse(self, fn, record=False):
-        global _UNTRACKED
-        _UNTRACKED = fn.mut_borrowed()
+        _TLS.untracked = fn.mut_borrowed()
         held = self.H(fn)
         core_guards = frozenset(l for l, c in held.guards.items() if c == 'JobQueue.core')
         rh = fn.name in self.requires_held
@@ -620,7 +625,7 @@ class Proto:
         if len(p) == 2 and p[0]['k'] == 'downcast' and p[1]['k'] == 'field' and p[1].get('i', 0) == 0:
             base = {'l': pl['l'], 'p': [x for x in pl['p'] if x['k'] == 'deref'][:1] if pl['p'] and pl['p'][0]['k'] == 'deref' else []}
             r = self._root_local(fn, base)
-            if r is not None and r not in _UNTRACKED:
+            if r is not None and r not in _untracked():
                 return r + PAYLOAD
         return None
 
@@ -748,7 +753,7 @@ class Proto:
         elif rv['k'] == 'use' and rv['op']['k'] in ('copy', 'move') and not rv['op']['pl']['p']:
             payload = vget(st, rv['op']['pl']['l'] + PAYLOAD)
         st = vset(st, l, val)
-        if payload is not None and payload[0] in ('enum', 'bool') and l not in _UNTRACKED:
+        if payload is not None and payload[0] in ('enum', 'bool') and l not in _untracked():
             st = vset(st, l + PAYLOAD, payload)
         return [st]
 
@@ -1018,6 +1023,15 @@ class Proto:
                 if st.len0 != '?' and (st.len0 == 'Y') != truth:
                     return None
                 return st._replace(len0='Y' if truth else 'N')
+            if atom[0] == 'runis':
+                # the answer of a job's run(): `if job.run(cx).is_pending()` is the same test as `match .. { Poll::Pending => .. }`
+                l, var = atom[1], atom[2]
+                pending = (var == 'Pending') == truth if var in ('Pending', 'Ready') else None
+                if pending is None:
+                    return st
+                if pending:
+                    return vset(st._replace(pend=1, susp=1), l, ('enum', 'Pending'))
+                return vset(st, l, ('enum', 'Ready'))
             if atom[0] == 'isvar':
                 l, names = atom[1], atom[2]
                 lv = vget(st, l)
@@ -1102,6 +1116,24 @@ class Proto:
         if name in ('std::thread::functions::park', 'std::thread::functions::park_timeout') and record:
             # what the owner last saw of its queue when it goes to sleep
             self.events[('park', self._evn(fn), '')].add((st.T, st.P))
+        PRED = {'core::task::poll::Poll::is_ready': 'Ready', 'core::task::poll::Poll::is_pending': 'Pending', 'core::option::Option::is_some': 'Some',
+                'core::option::Option::is_none': 'None', 'core::result::Result::is_ok': 'Ok', 'core::result::Result::is_err': 'Err'}
+        if name in PRED and args and args[0]['k'] != 'const':
+            l0 = self._root_local(fn, args[0]['pl'])
+            for _ in range(4):
+                # the method takes `&self`: step from the reference temporary to the value it points at
+                if l0 is None or not fn.local_ty(l0).strip().startswith('&'):
+                    break
+                ds = fn.defs().get(l0, [])
+                if len(ds) == 1 and ds[0][0] == 'stmt' and ds[0][3]['k'] == 'ref' and all(p['k'] == 'deref' for p in ds[0][3]['pl']['p']):
+                    l0 = ds[0][3]['pl']['l']
+                else:
+                    break
+            v0 = vget(st, l0) if l0 is not None else None
+            if v0 == ('runres',):
+                return done(st, ('pred', ('runis', l0, PRED[name])))
+            if v0 and v0[0] == 'enum':
+                return done(st, ('bool', int(v0[1] == PRED[name])))
         # the crate's own vocabulary on the state
         if name == QS + '::is_running':
             e = fn.expr_of_operand(args[0])
